@@ -75,7 +75,7 @@ func solveLast(r, h *big.Int, k int64) []byte {
 	return intLE(t, 16)
 }
 
-func genKey(g *hx.Gen) []byte {
+func genKey(g *bufGen) []byte {
 	r := g.R
 	key := r.Bytes(32)
 	switch r.Intn(10) {
@@ -119,7 +119,7 @@ func genKey(g *hx.Gen) []byte {
 	return key
 }
 
-func genLen(g *hx.Gen) int {
+func genLen(g *bufGen) int {
 	r := g.R
 	switch r.Intn(8) {
 	case 0:
@@ -135,7 +135,7 @@ func genLen(g *hx.Gen) int {
 	}
 }
 
-func genMsg(g *hx.Gen, n int) []byte {
+func genMsg(g *bufGen, n int) []byte {
 	r := g.R
 	m := r.Bytes(n)
 	switch r.Intn(8) {
@@ -162,7 +162,7 @@ func genMsg(g *hx.Gen, n int) []byte {
 
 var chunkSizes = []int{0, 1, 2, 15, 16, 17, 31, 32, 33, 47, 48, 64, 100, 255, 256, 257}
 
-func genOps(g *hx.Gen, n int) string {
+func genOps(g *bufGen, n int) string {
 	r := g.R
 	var ops []string
 	left := n
@@ -197,8 +197,42 @@ func realTag(key, msg []byte) []byte {
 	return out[:]
 }
 
-func gen(g *hx.Gen) {
-	n := g.Count(16000, 300000)
+type bufGen struct {
+	*hx.Gen
+	lines []string
+}
+
+func (b *bufGen) Emit(format string, a ...any) { b.lines = append(b.lines, fmt.Sprintf(format, a...)) }
+
+func gen(gg *hx.Gen) {
+	g := &bufGen{Gen: gg}
+	// sessions: 2..5 consecutive calls that reuse the same key array, message buffer and tag/out arrays with the
+	// contents rewritten in place; some calls repeat earlier contents, some run on fresh arrays (fresh=1)
+	defer func() {
+		r := g.R
+		for i := 0; i < len(g.lines); {
+			if r.Chance(1, 12) && i+2 <= len(g.lines) {
+				k := min(r.Range(2, 5), len(g.lines)-i)
+				sub := append([]string(nil), g.lines[i:i+k]...)
+				if r.Chance(1, 3) {
+					sub = append(sub, sub[r.Intn(len(sub))])
+				}
+				for j := range sub {
+					if r.Chance(1, 6) {
+						sub[j] += " fresh=1"
+					}
+				}
+				gg.Emit("%s", sessLine(sub))
+				gg.Stat("session")
+				gg.StatN("session.calls", len(sub))
+				i += k
+				continue
+			}
+			gg.Emit("%s", g.lines[i])
+			i++
+		}
+	}()
+	n := g.Count(14000, 300000)
 	r := g.R
 	for i := 0; i < n; i++ {
 		key := genKey(g)
@@ -292,28 +326,46 @@ func gen(g *hx.Gen) {
 
 func exec(line string) string {
 	o := hx.Parse(line)
-	var key [32]byte
-	copy(key[:], o.Hex("key"))
-	msg := o.Hex("msg")
+	if o.Cmd == "sess" {
+		ar := newArena()
+		var outs []string
+		for _, sub := range strings.Split(o.Str("ops"), "|") {
+			so := hx.Parse(strings.ReplaceAll(sub, ";", " "))
+			a := ar
+			if so.Str("fresh") == "1" {
+				a = newArena()
+			}
+			outs = append(outs, hx.Catch(func() string { return execOne(so, a) }))
+		}
+		return strings.Join(outs, " ## ")
+	}
+	return execOne(o, newArena())
+}
+
+func execOne(o hx.Op, ar *arena) string {
+	ar.begin()
+	key := ar.K32("key", o.Hex("key"))
+	msg := ar.In("msg", o.Hex("msg"))
 	switch o.Cmd {
 	case "sum":
-		var out [16]byte
-		poly1305.Sum(&out, msg, &key)
-		return hx.Hex(out[:])
+		out := ar.K16("out", nil)
+		ar.tr = ar.tr[:len(ar.tr)-1] // output
+		poly1305.Sum(out, msg, key)
+		return hx.Hex(out[:]) + ar.mutated()
 	case "kat":
-		var out [16]byte
-		poly1305.Sum(&out, msg, &key)
+		out := ar.K16("out", nil)
+		ar.tr = ar.tr[:len(ar.tr)-1]
+		poly1305.Sum(out, msg, key)
 		if hx.Hex(out[:]) == o.Str("tag") {
-			return "kat-ok"
+			return "kat-ok" + ar.mutated()
 		}
 		return "kat-mismatch"
 	case "verify":
-		var tag [16]byte
-		copy(tag[:], o.Hex("tag"))
-		if poly1305.Verify(&tag, msg, &key) {
-			return "v1"
+		tag := ar.K16("tag", o.Hex("tag"))
+		if poly1305.Verify(tag, msg, key) {
+			return "v1" + ar.mutated()
 		}
-		return "v0"
+		return "v0" + ar.mutated()
 	case "hist":
 		var outs []string
 		func() {
@@ -322,8 +374,8 @@ func exec(line string) string {
 					outs = append(outs, "panic")
 				}
 			}()
-			m := poly1305.New(&key)
-			for _, t := range o.List("ops") {
+			m := poly1305.New(key)
+			for step, t := range o.List("ops") {
 				kind, arg, _ := strings.Cut(t, ":")
 				switch kind {
 				case "w":
@@ -339,9 +391,10 @@ func exec(line string) string {
 				case "s":
 					outs = append(outs, hx.Hex(m.Sum(nil)))
 				case "sb":
-					outs = append(outs, hx.Hex(m.Sum(hx.UnHex(arg))))
+					pre := ar.In(fmt.Sprintf("prefix%d", step), hx.UnHex(arg))
+					outs = append(outs, hx.Hex(m.Sum(pre[:len(pre):len(pre)]))) // no spare capacity: Sum must allocate
 				case "v":
-					if m.Verify(hx.UnHex(arg)) {
+					if m.Verify(ar.In(fmt.Sprintf("vtag%d", step), hx.UnHex(arg))) {
 						outs = append(outs, "v1")
 					} else {
 						outs = append(outs, "v0")
@@ -350,9 +403,9 @@ func exec(line string) string {
 			}
 		}()
 		if len(outs) == 0 {
-			return "-"
+			return "-" + ar.mutated()
 		}
-		return strings.Join(outs, "|")
+		return strings.Join(outs, "|") + ar.mutated()
 	}
 	return "bad-op"
 }
